@@ -106,7 +106,7 @@ def run(ctx):
                % (a, b, sorted(sa), b, a, sorted(sb)))
     ctx.floor("R1", n, 28, "unordered pairs of operand kinds")
     # R2 — list/list mirror: first loop iteration (this_list = self, other_list = other)
-    w = Walker(body, max_visits=2)
+    w = utable.walker(prog, body, max_visits=2)
     sp = ("param", 1, body.locals[1].get("name") or "")
     op = ("param", 2, body.locals[2].get("name") or "")
     ps = w.paths({sp: frozenset(["SLinkedList"]), op: frozenset(["SLinkedList"])})
